@@ -114,7 +114,8 @@ def constCode (k : String) : Nat :=
 def plumbing (lhs : String) : Bool :=
   lhs ∈ ["changeValues", "changeValues[path]", "rollbackValues", "rollbackValues[path]",
     "rollbackValues[path].Path", "rollbackValues[path].Deleted", "rollbackValues[deletedParentPath]",
-    "rollbackIndex", "config.Values", "config.Status.Applied.Values", "config.Status.Applied.Values[path]"]
+    "rollbackIndex", "config.Values", "config.Status.Applied.Values", "config.Status.Applied.Values[path]",
+    "pathValues", "values", "relations"]
 
 def proj : List Tok → List Tok
   | [] => []
@@ -286,5 +287,74 @@ def gPropOf (p : Proposal) (cNone : Bool) (c : Cfg) (oNone : Bool) (o : Proposal
 def gProp (s : Sys) (p : Proposal) (other : Option Proposal) (env : Env) : V2G :=
   let c := (s.cfg? p.target).getD default
   gPropOf p (s.cfg? p.target).isNone c other.isNone (other.getD default) (s.rel? c.master) env
+
+/-! ### the configuration and mastership reconcilers -/
+
+/-- the state `reconcileConfiguration` reads: the configuration, the relation named by its master -/
+def gCfgOf (c : Cfg) (rel : Option Rel) (env : Env) (setFails : Bool) : V2G :=
+  { n := fun k =>
+      match k with
+      | "config.Status.Applied.Index" => c.applied
+      | "config.Status.Mastership.Master" => c.master
+      | "config.Status.Mastership.Term" => c.term
+      | "config.Status.Applied.Mastership.Term" => c.appliedTerm
+      | "config.Status.State" => cfgStateCode c.state
+      | "relation.GetRelation().SrcEntityID" => 1
+      | "controllerutils.GetOnosConfigID()" => 1
+      | k => constCode k
+    b := fun k =>
+      match k with
+      | "configurable.Persistent" => env.persistent
+      | "err@r.topo.Get#2" => rel.isNone
+      | "errors.IsNotFound(err)@r.topo.Get#2" => true
+      | "ok@r.conns.Get#1" => (rel.map (·.conn)).getD false
+      | "config.Status.Applied.Values != nil" => true
+      | "err@conn.Set#1" => setFails
+      | "errors.IsForbidden(err)@conn.Set#1" => env.dev == .wait
+      | _ => false }
+
+/-- tokens of the effects of a configuration-controller plan; the re-synchronisation requests of
+    one invocation (one per transaction index) are the iterations of one loop: one `conn.Set` token.
+    `early`: the branch for a target nothing was applied to writes the three fields in another order. -/
+def syncedToks (c : Cfg) (early : Bool) : List Tok :=
+  if early then [.setN "config.Status.State" 2, .setN "config.Status.Applied.Mastership.Master" c.master,
+    .setN "config.Status.Applied.Mastership.Term" c.term]
+  else [.setN "config.Status.Applied.Mastership.Master" c.master,
+    .setN "config.Status.Applied.Mastership.Term" c.term, .setN "config.Status.State" 2]
+
+def effToksCfg (c : Cfg) (early : Bool) : Effect → List Tok
+  | .cfg _ _ .synced (some _) _ _ => syncedToks c early ++ [.write "r.updateConfigurationStatus"]
+  | .cfg _ _ u (some _) _ _ => cfgUpdToks c u ++ [.write "r.updateConfigurationStatus"]
+  | .dev _ => [.write "conn.Set"]
+  | .cfgAVals _ _ => []
+  | _ => [.misc "foreign effect"]
+
+/-- adjacent southbound requests are iterations of the re-synchronisation loop -/
+def collapse : List Tok → List Tok
+  | .write "conn.Set" :: .write "conn.Set" :: t => collapse (.write "conn.Set" :: t)
+  | x :: t => x :: collapse t
+  | [] => []
+
+def planTraceCfg (c : Cfg) (early : Bool) (pl : Plan) : List Tok :=
+  collapse (pl.effects.flatMap (effToksCfg c early)) ++ (if pl.err then [.ret "err" []] else [.ret "nil" []])
+
+/-- the state the mastership `Reconcile` reads: the configuration, whether its master is among the
+    live relations of the target, how many there are -/
+def gMastOf (c : Cfg) (cNone : Bool) (masterLive : Bool) (nLive : Nat) : V2G :=
+  { n := fun k =>
+      match k with
+      | "config.Status.Mastership.Master" => c.master
+      | "len(targetRelations)" => nLive
+      | k => constCode k
+    b := fun k =>
+      match k with
+      | "err@r.configurations.Get#1" => cNone
+      | "errors.IsNotFound(err)@r.configurations.Get#1" => true
+      | "ok@targetRelations[]" => masterLive
+      | _ => false }
+
+def planTraceMast (c : Cfg) (pl : Plan) : List Tok :=
+  pl.effects.flatMap (effToks { cfgStatus := "r.configurations.UpdateStatus" } c) ++
+    (if pl.err then [.ret "err" []] else [.ret "nil" []])
 
 end OnosVerif.V2.Skel
